@@ -51,12 +51,14 @@ def snapshot(x, depth=0):
     """deep, comparable snapshot of an argument object (to detect in-place modification)"""
     import numpy as np
     import pandas as pd
+    # (contents AND the properties a caller relies on afterwards: dtypes, writability of arrays, column / index labels)
     if isinstance(x, pd.DataFrame):
-        return ("df", [str(c) for c in x.columns], [str(i) for i in x.index], [[repr(v) for v in row] for row in x.itertuples(index=False)])
+        return ("df", [str(c) for c in x.columns], [str(i) for i in x.index], [str(t) for t in x.dtypes],
+                [[repr(v) for v in row] for row in x.itertuples(index=False)])
     if isinstance(x, pd.Series):
-        return ("series", [str(i) for i in x.index], [repr(v) for v in x.tolist()])
+        return ("series", str(x.dtype), str(x.name), [str(i) for i in x.index], [repr(v) for v in x.tolist()])
     if isinstance(x, np.ndarray):
-        return ("nd", x.shape, [repr(v) for v in x.ravel().tolist()])
+        return ("nd", x.shape, str(x.dtype), bool(x.flags.writeable), [repr(v) for v in x.ravel().tolist()])
     if isinstance(x, dict):
         return ("dict", sorted((repr(k), snapshot(v, depth + 1)) for k, v in x.items()))
     if isinstance(x, (list, tuple)):
@@ -132,6 +134,9 @@ def catalogue():
     add("nn.hash_based-k2", lambda: [seqs() + seqs2()], lambda a: sorted(nn.hash_based(a[0], max_edits=2)))
     add("nn.kdtree-compression", lambda: [seqs() + seqs2()], lambda a: sorted(nn.kdtree(a[0], max_edits=1, compression=6)))
     add("nn.kdtree-compression5", lambda: [seqs2() + seqs()], lambda a: sorted(nn.kdtree(a[0], max_edits=1, compression=5)))
+    add("nn.kdtree-ndarray", lambda: [np.array(seqs())], lambda a: sorted(nn.kdtree(a[0], max_edits=1)))
+    add("nn.hash_based-ndarray", lambda: [np.array(seqs(), dtype=object)], lambda a: sorted(nn.hash_based(a[0], max_edits=1)))
+    add("nn.SymdelDB.lookup-ndarray", lambda: [np.array(seqs()), np.array(seqs2())], lambda a: sorted(nn.SymdelDB(a[0], 1).lookup(a[1])))
     add("nn.symdel-invalid", lambda: [[]], lambda a: nn.symdel(a[0]))
     add("nn.kdtree-invalid", lambda: [["CAXA"]], lambda a: nn.kdtree(a[0]))
     add("nn.nearest_neighbor_tcrdist", lambda: [tab()], lambda a: nn.nearest_neighbor_tcrdist(a[0], chain="beta", max_edits=2, max_tcrdist=60))
@@ -142,6 +147,8 @@ def catalogue():
     add("stats.pc-two", lambda: [seqs(), seqs2()], lambda a: stats.pc(a[0], a[1]))
     add("stats.pc-table", lambda: [tab()], lambda a: stats.pc(a[0][["CDR3A", "CDR3B"]]))
     add("stats.pc_n", lambda: [[3, 2, 1]], lambda a: stats.pc_n(a[0]))
+    add("stats.pc_n-ndarray", lambda: [np.array([3, 2, 1, 5])], lambda a: stats.pc_n(a[0]))
+    add("stats.stdpc_n-ndarray", lambda: [np.array([3, 2, 2, 1])], lambda a: stats.stdpc_n(a[0]))
     add("stats.pc_joint", lambda: [gtab()], lambda a: stats.pc_joint(a[0], ["s", "t"]))
     add("stats.pc_conditional", lambda: [gtab()], lambda a: stats.pc_conditional(a[0], "g", "s"))
     add("stats.pc_conditional-weights", lambda: [gtab(), [1, 2]], lambda a: stats.pc_conditional(a[0], ["g"], "s", group_weights=a[1]))
